@@ -29,7 +29,7 @@ def run(prog, an, rep):
                'event to the same trees is not decided')
     rep.run_rules(prog, an, [atomic_push_all, named_pushes, do_push_sites,
                              guarded, one_publication, queue_validation,
-                             fresh_clone])
+                             queue_validation_guards, fresh_clone])
 
 
 def atomic_push_all(prog, an, rep):
@@ -367,3 +367,141 @@ def queue_validation(prog, an, rep):
 
 def fresh_clone(prog, an, rep):
     common.reset_before_dispatch(prog, an, rep, 'C02')
+
+
+# What QueueCollection.validate refuses (the guard against queues that were
+# only partially written by the non-atomic push of q/ and q/w/ branches):
+# every error class with the chain of conditions it is reported under, read
+# off the pinned tree and confirmed against the docstring of validate().
+# ('then' / 'else' = arm of the enclosing if, 'loop' = enclosing iteration).
+HORIZONTAL = [
+    ('MasterQueueMissing', (('then', 'not masterq'),)),
+    ('MasterQueueLateVsDev',
+     (('else', 'not masterq'),
+      ('then', 'not masterq.includes_commit(masterq.dst_branch)'))),
+    ('MasterQueueNotInSync',
+     (('else', 'not masterq'),
+      ('then', 'not self._queues[version][QueueIntegrationBranch]'),
+      ('then', 'masterq.get_latest_commit() != '
+               'masterq.dst_branch.get_latest_commit()'))),
+    ('MasterQueueLateVsInt',
+     (('else', 'not masterq'),
+      ('else', 'not self._queues[version][QueueIntegrationBranch]'),
+      ('then', 'greatest_intq.get_latest_commit() != '
+               'masterq.get_latest_commit()'),
+      ('then', 'greatest_intq.includes_commit(masterq)'))),
+    ('MasterQueueYoungerThanInt',
+     (('else', 'not masterq'),
+      ('else', 'not self._queues[version][QueueIntegrationBranch]'),
+      ('then', 'greatest_intq.get_latest_commit() != '
+               'masterq.get_latest_commit()'),
+      ('else', 'greatest_intq.includes_commit(masterq)'),
+      ('then', 'masterq.includes_commit(greatest_intq)'))),
+    ('MasterQueueDiverged',
+     (('else', 'not masterq'),
+      ('else', 'not self._queues[version][QueueIntegrationBranch]'),
+      ('then', 'greatest_intq.get_latest_commit() != '
+               'masterq.get_latest_commit()'),
+      ('else', 'greatest_intq.includes_commit(masterq)'),
+      ('else', 'masterq.includes_commit(greatest_intq)'))),
+    ('QueueInclusionIssue',
+     (('else', 'not masterq'),
+      ('loop', 'self._queues[version][QueueIntegrationBranch]'),
+      ('then', 'not nextq.includes_commit(intq)'))),
+    ('QueueInclusionIssue',
+     (('else', 'not masterq'),
+      ('then', 'not nextq.includes_commit(masterq.dst_branch)'))),
+]
+VERTICAL = [
+    ('MasterQueueMissing',
+     (('loop', 'versions'), ('then', 'version not in stack'),
+      ('then', 'has_queues and (not hf_detected)'))),
+    ('MasterQueueMissing',
+     (('loop', 'versions'), ('then', 'not stack[version][QueueBranch]'))),
+    ('QueueInclusionIssue',
+     (('then', 'last_version in stack'),
+      ('loop', 'stack[last_version][QueueIntegrationBranch]'),
+      ('loop', 'reversed(versions[:-1])'),
+      ('then', 'stack[version][QueueIntegrationBranch] and '
+               'stack[version][QueueIntegrationBranch][0].pr_id == pr'),
+      ('then', 'not next_vqint.includes_commit(vqint)'))),
+    ('QueueInconsistentPullRequestsOrder',
+     (('then', 'last_version in stack'), ('then', 'prs'))),
+    ('QueueInconsistentPullRequestsOrder',
+     (('then', 'last_version in stack'), ('else', 'prs'),
+      ('loop', 'versions'),
+      ('then', 'version in stack and '
+               'stack[version][QueueIntegrationBranch]'))),
+]
+
+
+def _yield_guards(f):
+    pm = parent_map(f.node)
+    out = []
+    for n in walk_local(f.node, include_root=False):
+        if not (isinstance(n, ast.Yield) and n.value is not None):
+            continue
+        g = []
+        x = n
+        while x in pm:
+            par = pm[x]
+            if isinstance(par, ast.If) and x is not par.test:
+                arm = 'then' if any(
+                    x is s_ or any(y is x for y in ast.walk(s_))
+                    for s_ in par.body) else 'else'
+                g.append((arm, ' '.join(src(par.test).split())))
+            elif isinstance(par, (ast.For, ast.While)):
+                g.append(('loop', ' '.join(src(
+                    par.iter if isinstance(par, ast.For)
+                    else par.test).split())))
+            x = par
+        cls_ = src(n.value.func).rpartition('.')[2] \
+            if isinstance(n.value, ast.Call) else src(n.value)
+        out.append((cls_, tuple(reversed(g)), n))
+    return out
+
+
+def queue_validation_guards(prog, an, rep):
+    from collections import Counter
+    R = 'C02.REG.queue-validation-guards'
+    BRQ = GWF + '.branches.QueueCollection'
+    for meth, table in (('_horizontal_validation', HORIZONTAL),
+                        ('_vertical_validation', VERTICAL)):
+        f = need_func(an, BRQ + '.' + meth)
+        found = _yield_guards(f)
+        have = Counter((c_, g) for c_, g, _ in found)
+        for c_, g in table:
+            rep.evaluated()
+            ok = have.get((c_, g), 0) > 0
+            if ok:
+                have[(c_, g)] -= 1
+            near = [gg for cc, gg, _ in found if cc == c_]
+            rep.check(ok, R, '%s: %s reported when %s' % (
+                f.qname, c_, ' / '.join('%s[%s]' % (a, t[:45])
+                                        for a, t in g)), f.where(),
+                'the queue validation no longer reports %s under the '
+                'recorded conditions (now: %s): a partially written queue '
+                'can pass validation' % (c_, near[:2]))
+    v = need_func(an, BRQ + '.validate')
+    c = an.cfg(v)
+    calls = {src(x.func): x for x in prog.calls_in(v)
+             if isinstance(x.func, ast.Attribute)}
+    ok = 'self._horizontal_validation' in calls and \
+        'self._vertical_validation' in calls
+    loops = [src(n.iter) for n in walk_local(v.node, include_root=False)
+             if isinstance(n, ast.For)]
+    rep.evaluated()
+    rep.check(ok and 'versions' in loops and 'self.merge_paths' in loops, R,
+              v.qname + ': every version horizontally, every merge path '
+              'vertically', v.where(), 'validate loops over %s and calls '
+              '%s' % (loops, sorted(calls)))
+    errs_true = an.branch_nodes(v, lambda e: src(e) == 'errs', True)
+    okr = False
+    for b in errs_true:
+        first = _first_exit(an, v, c, b)
+        okr = first is not None and first[0] == 'raise' and \
+            (first[1] or '').endswith('.IncoherentQueues')
+    ext = [x for x in prog.calls_in(v) if src(x.func) == 'errs.extend']
+    rep.check(okr and len(ext) == 2, R, v.qname + ': any reported error '
+              'raises IncoherentQueues', v.where(), 'errors are not all '
+              'collected (%d extend calls) or do not raise' % len(ext))
